@@ -52,10 +52,19 @@ func streamSchedule(rng *rand.Rand, cycles int, vary int) []strOp {
 		default:
 			ch := rng.Intn(4)
 			rs := regsOf(ch)
+			short := rng.Intn(3) == 0 // length data close to the end: the channel expires soon after (if length is enabled)
 			// volume / DAC on, frequency, trigger
 			for _, a := range rs {
 				v := rng.Intn(256)
 				switch a {
+				case 0xff11, 0xff16, 0xff20:
+					if short {
+						v = v&0xc0 | 60 + rng.Intn(4)
+					}
+				case 0xff1b:
+					if short {
+						v = 250 + rng.Intn(6)
+					}
 				case 0xff12, 0xff17, 0xff21:
 					v |= 0xf0
 					if rng.Intn(6) == 0 {
@@ -350,7 +359,7 @@ func streamJobs(c *Ctx) []streamJob {
 	for i := 0; i < nl; i++ {
 		jobs = append(jobs, streamJob{fmt.Sprintf("loud-%d", i), "samples", rng.Int63n(1 << 40), 1 << 17, true})
 	}
-	np, pc := 16, 1<<17
+	np, pc := 24, 1<<17
 	if c.Thorough() {
 		np, pc = 64, 1<<19
 	}
